@@ -592,6 +592,10 @@ def get_binsize_all_bins(ctx):
         # the value returned is the common width of the non-last bins
         vals = [x for x in T.walk(r.value) if x[0] == 'call' and x[1] == G('next')]
         ctx.check(bool(vals), R, f'return#{k}.value', ctx.where(fa, r), found=r.value, expected='the single common width')
+        one = [c for c, p in r.guards if p and c[0] == 'cmp' and c[1] == '==' and C(1) in (c[2], c[3])
+               and any(x[0] == 'call' and x[1] == G('len') for x in (c[2], c[3]))]
+        ctx.check(bool(one), R, f'return#{k}.single-width', ctx.where(fa, r), found=[T.show(c) for c, p in r.guards],
+                  expected='returned only when exactly one distinct width was seen (len(sizes) == 1)')
     # the last bin of *every* chromosome takes part: the statement that folds it in runs on every
     # iteration of the per-chromosome loop (only a 'return None' may precede it)
     folds = [e for e in events(fa, ('assign', 'aug')) if e.loops and last_bin_terms(e.d.get('value', T.NONE))]
@@ -608,7 +612,7 @@ def get_binsize_all_bins(ctx):
     ctx.check(okc, R, 'common-widths', ctx.where(fa), found=[T.show(arg(e, 0)) for e in ups],
               expected='sizes.update(<widths>.iloc[:-1].unique()) per chromosome')
     nones = [r for r in returns(fa) if r.value == T.NONE and any(
-        c[0] == 'cmp' and T.contains(c, C(1)) and p for c, p in r.guards)]
+        c[0] == 'cmp' and c[1] == '<' and c[2] == C(1) and c[3][0] == 'call' and c[3][1] == G('len') and p for c, p in r.guards)]
     ctx.check(bool(nones), R, 'mixed-widths-none', ctx.where(fa), found=len(nones), expected='return None when more than one width')
 
 
